@@ -277,14 +277,30 @@ fn renumber(ops: &mut [Op]) {
 }
 
 /// do the versions of every document increase from one message to the next within an open session
-/// (from a didOpen to the next didOpen of the same document)?  The property speaks of the newest text the
+/// (from the didOpen of a closed document to its didClose / deletion)?  The property speaks of the newest text the
 /// client sent; a client whose versions go backwards has no "newest" the server could know of.
 fn versions_increase(ops: &[Op]) -> bool {
     let mut cur: BTreeMap<Url, usize> = BTreeMap::new();
     for o in ops {
         match o {
+            // a didOpen starts a new session only if the document is closed; a second didOpen of an open
+            // document (malformed stream) is one more message of the running session
             Op::Open(u, _, _, v) => {
+                if let Some(c) = cur.get(u) {
+                    if *v <= *c {
+                        return false;
+                    }
+                }
                 cur.insert(*u, *v);
+            }
+            Op::Close(u) => {
+                cur.remove(u);
+            }
+            Op::DelFile(d, n) => {
+                cur.remove(&Url::File(*d, *n));
+            }
+            Op::DelDir(d) => {
+                cur.retain(|u, _| !matches!(u, Url::File(d2, _) if d2 == d));
             }
             Op::Change(u, _, v) => {
                 if let Some(c) = cur.get(u) {
